@@ -1,6 +1,7 @@
 """K2 program differential: generate sender expressions + event scripts, emit C++ translation
 units over the real unifex API (harness/k2.hpp) and the same cases as terms of the Calc model,
 run both, compare traces event by event."""
+import zlib
 import hashlib, os, random, re
 from concurrent.futures import ThreadPoolExecutor
 import vlib
@@ -103,7 +104,8 @@ def to_cpp(e, bound=()):
         return "unifex::with_query_value(%s, k2::get_q%d, %d)" % (to_cpp(e[3], bound), e[1], e[2])
     if k == "unstop": return "unifex::unstoppable(%s)" % to_cpp(e[1], bound)
     if k == "mat": return "k2::mat(%s)" % to_cpp(e[1], bound)
-    if k == "dopt": return "k2::dopt(%s)" % to_cpp(e[1], bound)
+    if k == "dopt":   # every other one (by content): the void-valued form, same model term
+        return "k2::dopt%s(%s)" % ("_void" if zlib.crc32(to_model(e[1]).encode()) % 2 == 0 else "", to_cpp(e[1], bound))
     a = to_cpp(e[1], bound)
     if k == "letv":
         x = "x%d" % len(bound)
@@ -245,6 +247,9 @@ CORPUS = [
     ("withq", 0, 9, ("lete", ("jerr", 21), ("letd", ("jdone",), ("swhen", ("leaf", 0), ("leaf", 1))))),
     # stop cascade in which a reactive leaf's completion starts a new leaf between two stop callbacks (thorough-tier false alarm, now batch-compared)
     ("letv", ("swhen", ("udone", ("add", 7), ("fin", ("letv", ("leaf", 0), ("leafn", 1)), ("leaf", 2))), ("leafn", 3)), ("var", 0)),
+    # done_as_optional over an int-valued and over a VOID-valued source (k2::dopt / k2::dopt_void, chosen by content)
+    ("wall", ("dopt", ("leaf", 0)), ("dopt", ("leaf", 1))),
+    ("letv", ("dopt", ("then", ("add", 1), ("leaf", 0))), ("dopt", ("leafn", 1))),
 ]
 
 
@@ -318,7 +323,10 @@ def run_k2(chk, n_tus, cases_per_tu, scripts_per_case, size_range=(2, 8), cfg="p
             if mon:
                 chk.violation("k2/monitor/%s/%s" % (mon.split(":")[0], kinds), rp, text="%s | %s | %s" % (to_model(e), sc, mon))
             else:
-                chk.violation("k2/corr/%s" % kinds, rp, no_input=True,
+                # the model's root outcome is the documented result (Properties_C05_calc.v: exec = denotation); a run whose
+                # root completion differs from it is a concrete failing input, not only a broken correspondence
+                ri, rm = re.findall(r"root [^;#]*", io), re.findall(r"root [^;#]*", mo)
+                chk.violation("k2/corr/%s" % kinds, rp, no_input=(ri == rm),
                               text="%s | pre=%d %s | impl=%s | model=%s" % (to_model(e), pre, sc, ci[:200], cm[:200]))
     return stats
 
